@@ -342,6 +342,7 @@ def run(rep, tier):
     rep.rule('R06.4', 'set updates agree with the C sibling: the multiset of (operation, destination, source) over OR / AND / AND_NOT / COPY / CLEAR is the same in both emitted step functions (accepted differences are listed with reasons)')
     rep.rule('R06.5', 'closure loops visit every member: each emitted loop of the entry-set phase that adds the ancestors of the members of a set (deep completion, targets of initial and history default transitions) neither breaks after the first member nor leaves at the first non-member (same clause as C04 R04.9 for the C sibling)')
     rep.rule('R06.6', 'static event-descriptor resolution: the prefix trie registers every event name and a prefix lookup returns every name below the prefix (rules shared with C12 R12.5 / R12.6)')
+    rep.rule('R06.11', 'done.state of a parallel is judged on a complete picture (same clause as C03 R03.11 / C04 R04.13 for the siblings)')
     rep.rule('R06.10', 'delayed events keep their order in time: the emitted model advances time (subtracting the elapsed delay from the waiting events) whenever the chart uses delays, whatever the number of machines')
     rep.rule('R06.9', 'chart code keeps its identifiers: the rename of the system variables (_name, _sessionid) in conditions, expressions and scripts replaces whole identifiers only, so a user variable that merely contains such a name is the same variable in its declaration and in its uses')
     rep.rule('R06.8', 'queue rotations keep the order of what they keep: an emitted inline that takes every element off a queue and re-enqueues the survivors iterates exactly the initial length (a counter set from len(queue) before the loop), not `index < len(queue)` re-evaluated while elements are dropped')
@@ -467,6 +468,14 @@ def run(rep, tier):
     # ---- R06.6
     from . import C12
     C12.trie_rules(rep, fb, 'R06.6', 'R06.6')
+    # ---- R06.11 parallel completion is judged inside the entry loop, on the configuration as far as it has been entered
+    f11, t11, ls11 = per_writer['writeFSMEnterStates']
+    hit11 = [(l_, s_) for l_, s_ in ls11 if re.search(r'STATES_AND_NOT\(\s*ctx\.tmp_states\s*,\s*states\[\w+\]\.ancestors', l_)]
+    reads_cfg = any(re.search(r'\bconfig\[\w+\]', l_) for l_, s_ in ls11)
+    if not hit11:
+        raise AnalysisBroken('writeFSMEnterStates: the parallel-completion check (STATES_AND_NOT on tmp_states) was not found')
+    rep.check(not reads_cfg, 'R06.11', 'writeFSMEnterStates|done.state of a parallel', 'src/uscxml/transform/ChartToPromela.cpp:%s' % hit11[0][1],
+              'the emitted check "all regions of the parallel are final" %s' % ('reads a complete configuration' if not reads_cfg else 'reads ctx.config inside the loop that is still entering states (same template as the generated C): regions later in document order do not count yet, done.state.<parallel> can be raised although a later region never becomes final'))
     # ---- R06.10
     time_advances(rep, fb, 'R06.10')
     # ---- R06.9
